@@ -310,9 +310,12 @@ def Guard.passesN (n : Nat) (hasDefs : Bool) : Guard → Bool
   | .gt g => decide (n > g)
   | .defsPresent => hasDefs
 
-/-- `p[j]` is only read when it exists -/
-def Src.safeN (n : Nat) : Src → Bool
+def defsFields : List String := ["sd", "sf", "su", "ss", "maxsof"]
+
+/-- `p[j]` is only read when it exists; `shx.defs.<field>` only when there is a DEFS object and the field is one of its five -/
+def Src.safeN (n : Nat) (hasDefs : Bool) : Src → Bool
   | .idx j => decide (j < n)
+  | .defs f _ => hasDefs && defsFields.contains f
   | _ => true
 
 /-- the assignment that determines attribute `a` for `n` values: the last one whose guard passes -/
@@ -344,7 +347,7 @@ def conforms (rules : List DefsRule) (c : CardSlots) (sp : Syntax) : Bool :=
   let stmts := stmtsOf rules c
   sp.finite && (!c.intnums || sp.params.all (fun p => p.kind == .int)) &&
   (formLens sp).all fun n => [false, true].all fun hd =>
-    (stmts.all fun s => !s.guard.passesN n hd || s.src.safeN n) &&
+    (stmts.all fun s => !s.guard.passesN n hd || s.src.safeN n hd) &&
     (sp.positions.all fun pk => winnerOK pk.1 pk.2 n hd (winner stmts n hd pk.1.attr))
 
 /-- the first place where `conforms` fails: (form length, DEFS present, attribute or "index:<attr>") — the recipe
@@ -352,7 +355,7 @@ def conforms (rules : List DefsRule) (c : CardSlots) (sp : Syntax) : Bool :=
 def firstMismatch (rules : List DefsRule) (c : CardSlots) (sp : Syntax) : Option (Nat × Bool × String) :=
   let stmts := stmtsOf rules c
   ((formLens sp).flatMap fun n => [false, true].flatMap fun hd =>
-    ((stmts.filter fun s => s.guard.passesN n hd && !s.src.safeN n).map fun s => (n, hd, "index:" ++ s.attr)) ++
+    ((stmts.filter fun s => s.guard.passesN n hd && !s.src.safeN n hd).map fun s => (n, hd, "index:" ++ s.attr)) ++
     ((sp.positions.filter fun pk => !winnerOK pk.1 pk.2 n hd (winner stmts n hd pk.1.attr)).map fun pk => (n, hd, pk.1.attr))).head?
 
 /-! ## tokens: numbers first, then names -/
